@@ -342,7 +342,7 @@ def run_property(prop, tier, seed):
     #      natively evaluable post-conditions are still probed on the real code with pseudo-random inputs
     for fn in unsupported_fns:
         rnd = random.Random(seed * 104729 + len(fn))
-        for attempt in range(int(os.environ.get("VERIF_PROBES", "12")) * 2):
+        for attempt in range(int(os.environ.get("VERIF_PROBES", "12")) * 5):
             nat = native_replay(fn, fn + "/*", {"model": {"__random__": rnd.randrange(1 << 30)}, "choices": []},
                                 prop.CONTRACT_MODULES, repo)
             if nat.get("reproduced") is True and nat.get("pre_holds_natively") and nat.get("failed_clause"):
